@@ -100,3 +100,28 @@ func TestDebugReplay(t *testing.T) {
 	}
 	fmt.Println(sim.DumpState(r))
 }
+
+func TestDebugSteps(t *testing.T) {
+	path := os.Getenv("DEBUG_REPLAY")
+	if path == "" {
+		t.Skip()
+	}
+	data, _ := os.ReadFile(path)
+	var rf struct {
+		Case struct {
+			S sim.Scenario `json:"scenario"`
+			H []sim.Action `json:"history"`
+		} `json:"case"`
+	}
+	json.Unmarshal(data, &rf)
+	r, _ := sim.NewRun(rf.Case.S)
+	r.W.Build(rf.Case.S)
+	for i, a := range rf.Case.H {
+		r.Apply(a)
+		ro := r.W.Rollout(rf.Case.S.Namespace, rf.Case.S.Name)
+		fmt.Printf("%d %v excluded=%v userlog=%d %s\n", i, a, r.W.Excluded, len(r.UserLog), sim.Brief(&sim.Write{After: ro}))
+		if i > 12 {
+			break
+		}
+	}
+}
